@@ -66,6 +66,22 @@ def task(t):
                                            note="scale product %s is the scale of %s but the result is fitted" % (s, nu)))
             continue
         if Rt == w.AMT:
+            # dimensionless result whose scale product is not one: the only unit is ONE, so the amount must be
+            # (a o b) multiplied by the scale product, computed in the amount type (T_uf: the very term)
+            th = T.TUf(be, total=True)
+            run = driver.Run(w, th, prune=False)
+            a, b = th.var("a"), th.var("b")
+            outs = D.run_op(run, run.state(), inst, ua, ub, a, b)
+            R.absorb_exec(run.ex)
+            s_ = D.fold_scale(w, inst, ua, ub)
+            ok = len(outs) == 1 and not outs[0].panic and s_ is not None
+            if ok:
+                want = th.bin("Mul", th.bin(trait, a, b), th.const(s_))
+                res, _ = sv.check(th.cons + outs[0].pc + [outs[0].value.term != want.term])
+                ok = res == "unsat"
+            R.oblig(pair + " dimensionless amount", ok, True, {"obligation": pair + " dimensionless amount", "theory": "T_uf", "goal": "amount is (a o b) * (sa o sb) computed in the amount type"})
+            if not ok:
+                R.candidates.append(E.cand("C05", "dimensionless", be, w, op, [A_, B_, Rt], [ua, ub], None, pair, form="vv"))
             continue
         # ---------------------------------------------- fitted path
         th = T.TRe64() if be == "f64" else T.TRed()
@@ -137,7 +153,16 @@ def oracle(c, out, scales, prefixes=None):
     if unit == "PANIC":
         return (be == "f64"), "panicked: %s" % r
     if Rt in ("f64", "Decimal"):
-        return None, "dimensionless"
+        from engine.mirsmt import theories as T0
+        th0 = T0.Theory(be)
+        s0 = th0.fold("Mul" if op == "mul" else "Div", scales[A_][ua], scales[B_][ub])
+        ab0 = th0.fold("Mul" if op == "mul" else "Div", a, b)
+        if s0 is None or ab0 is None:
+            return None, "dimensionless, not computable"
+        want = ab0 if s0 == 1 else th0.fold("Mul", ab0, s0)
+        if want is None:
+            return None, "dimensionless, not computable"
+        return (F(r) != F(want)), "dimensionless result %s, expected (a o b)*(sa o sb) = %s" % (r, want)
     if unit not in scales[Rt]:
         return True, "result unit %s is not a unit of %s" % (unit, Rt)
     from engine.mirsmt import theories as T
